@@ -18,10 +18,11 @@ EXPLANATION = (
     "R4 transmit sends (cob_id, data) of the map; R5 a remote request is sent only under `enabled and rtr_allowed`, as "
     "a remote frame on the map's COB-ID; R6 mapped variables of a received frame read from pdo_parent.data (the object "
     "the reception stores into); R7 a map's handler is registered once however often subscribe() runs (callbacks once per "
-    "frame); R8 remote and error frames are not delivered as data; R9 every variable write refreshes a running cyclic transmission."
+    "frame); R8 remote and error frames are not delivered as data; R9 every variable write refreshes a running cyclic transmission; "
+    "R10 the bit-field codec (all rules of C05) is part of this property: the value read is the value written."
 )
 ASSUMPTIONS = [
-    "not decided: values and schedules; bit-field extraction is decided under C05",
+    "not decided: values and schedules",
     "callbacks are opaque",
 ]
 
@@ -141,6 +142,10 @@ def run(chk):
     shared.subscribe_once(chk, "R7")
     shared.listener_filter(chk, "R8")
     shared.setdata_updates_task(chk, "R9")
+    # R10: what the consumer reads are the producer's bits -- the bit-field codec of C05 is a clause of this property
+    from . import c05
+    from .common import RuleProxy
+    c05.run(RuleProxy(chk, "R10"))
 
 
 def _blocks(fr, n, lab) -> bool:
